@@ -908,6 +908,14 @@ def run(ctx):
     uncovered = []
     log_at = {}
     oracle_runs = {}
+    option_runs = {}
+    # downgrade rule (C20_resolves / C20_options_bindings): what the translator refused in THIS run
+    try:
+        gen_txt = (C.COQ / 'Gen' / 'CliTable.v').read_text()
+    except OSError:
+        gen_txt = ''
+    entries_dg = dict(re.findall(r'mkCmd "([^"]*)" \(HUntranslated "((?:[^"]|"")*)"\)', gen_txt))
+    options_dg = dict(re.findall(r'mkOpt "([^"]*)" \(AUntranslated "((?:[^"]|"")*)"\)', gen_txt))
 
     def add(t, info):
         terms.append(t)
@@ -941,6 +949,9 @@ def run(ctx):
     def main_case(argv, o, kind):
         if 'OutOfFuel' in literal_of(argv):
             return                      # -r literal that is not a list of int/None tuples: outside the model
+        if any(f and a.startswith(f) for f in options_dg for a in argv) or \
+                any(len(a) > 2 and a[0] == '-' and a[1] != '-' and any(f[1:] in a[1:] for f in options_dg if f) for a in argv):
+            return                      # uses an option the translator refused in this run: the oracle decides
         if all(printable(a) for a in argv) and (o.selected is None or all(printable(a) for a in o.selected[1])):
             add('chk_main %s %s %s' % (c_strs(argv), literal_of(argv), c_outcome(o)), (kind, argv))
 
@@ -979,6 +990,10 @@ def run(ctx):
         start = len(PROCESS_LOG)
         res.evaluations += len(hist)
         msg = ORACLES['history']({'calls': hist})
+        if msg is None:
+            for c in hist:
+                for k2 in c.get('cfg', {}):
+                    option_runs['-' + k2] = option_runs.get('-' + k2, 0) + 1
         for c in hist:
             D.add(('hist', c['kind'], tuple(c.get('argv', [])), repr(c.get('session'))), True,
                   'history-cli' if c['kind'] == 'cli' else 'history-api')
@@ -1007,7 +1022,7 @@ def run(ctx):
     # ---- the generated table against the live objects
     add('chk_ncmds %s' % C.c_nat(len(cmds)), ('ncmds',))
     for i, c in enumerate(cmds):
-        add('chk_cmd %s %s %s' % (C.c_nat(i), C.c_str(c.name), C.c_bool(c.fn.__name__ == '<lambda>')), ('cmd', i, c.name))
+        add('chk_cmd %s %s %s' % (C.c_nat(i), C.c_str(c.name), C.c_bool(getattr(c.fn, '__name__', None) == '<lambda>')), ('cmd', i, c.name))
         add('chk_lookup_name %s %s' % (C.c_str(c.name), C.c_opt(C.c_nat(
             next(j for j, d in enumerate(cmds) if d.fn is T._get_command_function(c.name))))), ('lookup', c.name))
         D.add(('cmd', c.name), True, 'table-entry')
@@ -1079,7 +1094,9 @@ def run(ctx):
         tail = rng.choice([['raw', '6', '1'], ['bmc', 'info'], ['raw', 'lun', '1', '0x06', '0x01'], ['chassis', 'status']])
         argv = render_config(rng, cfg) + tail
         jcfg = dict(cfg)
-        oracle('options', {'cfg': jcfg, 'argv': argv}, 'options:%s' % '+'.join(sorted(cfg)))
+        if oracle('options', {'cfg': jcfg, 'argv': argv}, 'options:%s' % '+'.join(sorted(cfg))) is None:
+            for k2 in cfg:
+                option_runs['-' + k2] = option_runs.get('-' + k2, 0) + 1
         o = run_cli(argv, B.Bmc().handle)
         main_case(argv, o, 'options')
         D.add(('opt', tuple(argv)), bool(cfg), 'options-%d' % min(len(cfg), 6))
@@ -1255,6 +1272,8 @@ def run(ctx):
     imports = 'Lib.Prog Model.Cli Model.CliApi Gen.CliTable Corr.C20'
     dg_term = 'map ca_cmd (filter (fun e => negb (entry_translated call_specs e)) cli_api_spec)'
     dg_imports = 'Lib.Prog Model.Cli Model.CliApi Gen.CliTable Proofs.CliProofs Proofs.CliApiProofs'
+    dg2_term = ('List.app (flat_map (fun c => match c_handler c with HUntranslated _ => [String.append "E:" (c_name c)] | _ => [] end) commands) '
+                '(flat_map (fun b => match o_action b with AUntranslated _ => [String.append "O:" (o_flag b)] | _ => [] end) option_table)')
 
     def tables_of_this_tree():
         try:
@@ -1264,6 +1283,7 @@ def run(ctx):
             return False
     failing, errors = C.coq_cases('C20', imports, terms)
     dg_out = C.coq_eval('C20', dg_imports, dg_term)
+    dg2_out = C.coq_eval('C20', dg_imports, dg2_term)
     stale = errors or not dg_out.strip().startswith('[') or not tables_of_this_tree()
     for attempt in range(2):
         if not stale:
@@ -1273,6 +1293,7 @@ def run(ctx):
             rc_b, out_b = C.make(['Corr/C20.vo', 'Proofs/CliApiProofs.vo'], timeout=900)
             failing, errors = C.coq_cases('C20', imports, terms)
             dg_out = C.coq_eval('C20', dg_imports, dg_term)
+            dg2_out = C.coq_eval('C20', dg_imports, dg2_term)
         if rc_b != 0 or any(v['rc'] != 0 for v in gi.values()):
             errors = list(errors) + [('rebuild', out_b[-1500:])]
         stale = bool(errors) or not dg_out.strip().startswith('[')
@@ -1298,6 +1319,24 @@ def run(ctx):
                 what='the API translator refused the operation of %r in this run and no oracle run decided it' % nm,
                 replay={'downgraded': nm})
     res.extra['same_request_downgraded'] = downgraded
+    for nm, why in sorted(entries_dg.items()):
+        bad = [k for k in fails if k.startswith('cli:%s:' % nm)]
+        if oracle_runs.get(nm, 0) == 0 and not bad:
+            key = 'resolves:%s:downgraded-without-oracle' % (nm or '<unnamed entry>')
+            fails[key] = C.Violation(key=key, found_input=False, replay={'downgraded': nm, 'reason': why},
+                                     what='the translator refused the handler of %r (%s) and no oracle run decided it' % (nm, why))
+    for fl, why in sorted(options_dg.items()):
+        bad = [k for k in fails if k.startswith(('options:', 'history:'))]
+        if option_runs.get(fl, 0) == 0 and not bad:
+            key = 'options:%s:downgraded-without-oracle' % (fl or '<unnamed option>')
+            fails[key] = C.Violation(key=key, found_input=False, replay={'downgraded': fl, 'reason': why},
+                                     what='the translator refused option %r (%s) and no option / history oracle run exercised it' % (fl, why))
+    res.extra['entries_downgraded'] = [{'entry': k, 'reason': v} for k, v in sorted(entries_dg.items())]
+    res.extra['options_downgraded'] = [{'option': k, 'reason': v} for k, v in sorted(options_dg.items())]
+    # the lists above were read from the generated file; Coq must see the same refusals
+    m_dg = re.findall(r'"([^"]*)"', dg2_out) if dg2_out.strip().startswith('[') else None
+    if m_dg is None or sorted(m_dg) != sorted(['E:' + k for k in entries_dg] + ['O:' + k for k in options_dg]):
+        res.corr_errors = list(res.corr_errors) + [('downgrade-lists', dg2_out[-800:])]
     res.extra['same_request_by_theorem'] = [c.name for c in cmds if c.name in THEOREM_COVERED and c.name not in downgraded]
     res.extra['same_request_oracle_only'] = [c.name for c in cmds if c.name not in THEOREM_COVERED]
     res.rule = ('every COMMANDS entry x %d runs (argument vectors from the per-command grammar, numbers dec/hex where the tool '
